@@ -51,8 +51,21 @@ def cases(tier):
                     # functional twin, so programs reading through a copy are outside this grammar
                     continue
                 progs += with_consumers(p, quick)
-        if not quick:
-            progs = progs[:: 1]
+        if base in vp.F_ORDERED:
+            # targeted 3-statement family on the non-C-ordered bases: an INTERMEDIATE tensor with non-C-ordered data (its upstream leaf shows
+            # what reaches the old contents), a view of it, an in-place statement through that view
+            shape = vp.BASES[base]
+            for nv in ("v = t * k", "v = +t"):
+                for vt in vp.VIEWS_Q:
+                    l2 = vt.format(d="w", s="v")
+                    if not vp.well_typed([nv, l2], shape, True):
+                        continue
+                    for ip in vp.INPLACE_Q:
+                        if ".shape" in ip:
+                            continue
+                        l3 = ip.format(t="w", o="v")
+                        if vp.well_typed([nv, l2, l3], shape, True):
+                            progs += with_consumers([nv, l2, l3], True)[-2:]
         size = 40
         for i in range(0, len(progs), size):
             out.append({"name": "%s/%d" % (base, i), "base": base, "progs": progs[i:i + size]})
